@@ -635,12 +635,16 @@ ALLOC_FAC = r'''
 '''
 
 
-def expand_basis_spec():
+def expand_basis_spec(counts=True):
+    """counts: expand_basis has the `op_counter` out-parameter and counts its own operator application (the pinned signature).  A variant without the
+    parameter leaves the counting to the caller: the contract then says `not counted here`, and `every operator application is counted` is decided where it
+    belongs, in factorize_from."""
+    c = "1" if counts else "0"
     return FSpec("expand_basis", "void", [("Fac *", "F"), ("Mat", "V"), ("Index", "seed"), ("Scalar *", "f"), ("Scalar *", "fnorm"), ("Index *", "op_counter")],
                  pre=[("V is the leading block of the basis, f a length-n vector", "V.rows == F->m_n && 0 <= V.cols && V.cols <= F->m_m && VEC_SIZE(f) == F->m_n && F->m_op->n == F->m_n && 0 <= F->m_n && F->m_n <= NMAX"),
                       ("seed of the library form 2*i", "0 <= seed && seed <= 2 * NMAX"),
                       ("counters bounded", "0 <= g_ops && g_ops <= 3 * CAP && 0 <= (*op_counter) && (*op_counter) <= 3 * CAP")],
-                 post=[("exactly one operator application, counted", "g_ops == old_ops + 1 && (*op_counter) == old_cnt + 1"),
+                 post=[("exactly one operator application, counted" if counts else "exactly one operator application, left to the caller to count", "g_ops == old_ops + 1 && (*op_counter) == old_cnt + %s" % c),
                        ("norm of the new residual is non-negative", "(*fnorm) >= (Scalar)0"),
                        ("a restart vector that passed the orthogonality test has a nonzero norm (the caller divides by it)", "!g_accepted || (*fnorm) > (Scalar)0")],
                  exc_post=[("the operator threw: it was entered once and not counted", "verif_exc == EXC_user && g_ops == old_ops + 1 && (*op_counter) == old_cnt")],
@@ -650,8 +654,14 @@ def expand_basis_spec():
 
 def f_expand_basis(report):
     stm = []
-    spec = expand_basis_spec()
     f = X.locate(AH, "expand_basis", cls="Arnoldi")
+    counts = bool(re.search(r"\bop_counter\b", f.params))
+    spec = expand_basis_spec(counts)
+    if not counts:
+        import copy
+        f = copy.copy(f)
+        f.params = f.params + ", Index& op_counter"    # uniform C signature; the body never touches it
+    c = "1" if counts else "0"
     t, R = cgen.emit(f, "expand_basis", ret_c="void", self_type="Fac", self_name="F", members=FAC_MEMBERS,
                      param_types={"V": "Mat", "seed": "Index", "f": "Scalar *", "fnorm": "REF", "op_counter": "REF"},
                      extra_rules=[("rng", r"SimpleRandom<Scalar> rng\(([^;]+)\);", r"const Index verif_seed = (\1); __CPROVER_assert(verif_seed >= 0, @Q@SimpleRandom seed is non-negative@Q@);", {"max": 1}),
@@ -661,7 +671,7 @@ def f_expand_basis(report):
                      contract=spec.frame_contract(),
                      loop_contracts={0: "__CPROVER_assigns(iter, *fnorm, *op_counter, g_ops, verif_exc, g_accepted, __CPROVER_object_whole(f), __CPROVER_object_whole(v), __CPROVER_object_whole(Vf)) "
                                         "__CPROVER_loop_invariant(0 <= iter && iter <= 5 && verif_exc == 0 && !g_accepted) "
-                                        "__CPROVER_loop_invariant(iter == 0 ? (g_ops == old_ops_l && (*op_counter) == old_cnt_l) : (g_ops == old_ops_l + 1 && (*op_counter) == old_cnt_l + 1 && (*fnorm) >= (Scalar)0)) "
+                                        "__CPROVER_loop_invariant(iter == 0 ? (g_ops == old_ops_l && (*op_counter) == old_cnt_l) : (g_ops == old_ops_l + 1 && (*op_counter) == old_cnt_l + %s && (*fnorm) >= (Scalar)0)) " % c +
                                         "__CPROVER_decreases(5 - iter)",
                                      1: "__CPROVER_assigns(count, *fnorm, ortho_err, __CPROVER_object_whole(f), __CPROVER_object_whole(Vf)) "
                                         "__CPROVER_loop_invariant(0 <= count && count <= 3 && (*fnorm) >= (Scalar)0 && ortho_err >= (Scalar)0) __CPROVER_decreases(3 - count)"},
@@ -716,7 +726,7 @@ def f_factorize_from(which, report):
     stm = []
     spec = factorize_spec(which)
     f = X.locate(hdr, "factorize_from", cls=which)
-    extra = [("expand", r"(?:this->)?expand_basis\(V,\s*([^,]+),\s*F->m_fac_f,\s*F->m_beta,\s*\(\*op_counter\)\);",
+    extra = [("expand", r"(?:this->)?expand_basis\(V,\s*([^,]+),\s*F->m_fac_f,\s*F->m_beta(?:,\s*\(\*op_counter\))?\);",
               r"expand_basis(F, V, \1, F->m_fac_f, &F->m_beta, op_counter);", {"max": 1}),
              ("mk", r"F->m_k = to_m;", "F->m_k = to_m; F->g_valid_k = to_m; g_clock++; F->st_fac = g_clock;", {"max": 1})]
     if which == "Arnoldi":
@@ -1498,7 +1508,9 @@ def cshift_spec():
                        # pairs, which the sort contract does not give for tied keys; the obligation fails, no real failing input was found
                        # (replay_src/C02_cshift_pairs_replay.cpp), so it is neither a violation nor a finding.  The write itself is index-safe.
                        ],
-                 exc_post=[("operator exception or rejected rule propagates", "verif_exc == EXC_user || verif_exc == EXC_invalid_argument")],
+                 exc_post=[("operator exception or rejected rule propagates", "verif_exc == EXC_user || verif_exc == EXC_invalid_argument"),
+                           # C14 / C06: a fault in one of the root-selection probe solves must not leave the probe shift installed in the user's operator
+                           ("the shift installed at construction is in force again when an exception leaves sort_ritzpair", "S->m_op->shift_re == S->m_sigmar && S->m_op->shift_im == S->m_sigmai")],
                  frame=base.frame + ["S->g_backtransformed", "S->m_op->shift_re", "S->m_op->shift_im", "g_pair_adjacent_violated", "S->m_fac.m_fac_V.cell"],
                  frame_inplace=base.frame_inplace, frame_inplace_mat=base.frame_inplace_mat, may_throw=[1, 7],
                  olds=[("Index", "old_bt", "S->g_backtransformed"), ("Index", "old_ops", "g_ops"), ("Index", "old_nmatop", "S->m_nmatop")],
@@ -1509,7 +1521,9 @@ def f_cshift_sort(report):
     stm = []
     spec = cshift_spec()
     hdr, cls = "GenEigsComplexShiftSolver.h", "GenEigsComplexShiftSolver"
-    pre = [("rng", r"SimpleRandom<Scalar> rng\(0\);", "", {"max": 1}),
+    pre = [("catch-restore", r"\btry\s*\{\s*(m_op\.perform_op\([^;]*\);\s*m_op\.perform_op\([^;]*\);)\s*\}\s*catch \(\.\.\.\)\s*\{\s*m_op\.set_shift\(m_sigmar, m_sigmai\);\s*throw;\s*\}",
+            r"\1 /*CATCH_RESTORE*/", {"min": 0, "max": 1}),
+           ("rng", r"SimpleRandom<Scalar> rng\(0\);", "", {"max": 1}),
            ("shiftr", r"const Scalar shiftr = rng\.random\(\) \* m_sigmar \+ rng\.random\(\);", "const Scalar shiftr = nondet_Scalar();", {"max": 1}),
            ("set_shift", r"m_op\.set_shift\(shiftr, Scalar\(0\)\);", "OP_set_shift2(m_op, shiftr, (Scalar)0);", {"max": 1}),
            ("probe-op", r"m_op\.perform_op\((\w+)\.data\(\), (\w+)\.data\(\)\);", r"OP_probe_op(m_op, \1, \2);", {"min": 2, "max": 2}),
@@ -1537,6 +1551,12 @@ def f_cshift_sort(report):
     t, R = cgen.emit(f, "cshift_sort_ritzpair", ret_c="void", self_type="Solver", self_name="S", members=SOLVER_MEMBERS + ["m_sigmar", "m_sigmai"],
                      pre_rules=pre, extra_rules=accessor_rules(report), loop_contracts={0: inv}, contract=spec.frame_contract(),
                      maythrow=["OP_probe_op", "sort_ritzpair"], post_fn=pf, pre_body=" g_pair_adjacent_violated = 0;")
+    if "/*CATCH_RESTORE*/" in t:
+        # `try { probe solves } catch (...) { m_op.set_shift(m_sigmar, m_sigmai); throw; }`: the handler runs on the unwinding path of the two probe solves
+        t, nrep = re.subn(r"(OP_probe_op\(S->m_op, \w+, \w+\); if \(verif_exc\) \{) (return; \})", r"\1 OP_set_shift2(S->m_op, S->m_sigmar, S->m_sigmai); \2", t)
+        if nrep != 2:
+            raise X.ExtractionBreak("cshift sort_ritzpair: catch handler around the probe solves not mapped onto both unwinding paths (%d)" % nrep)
+        R.fired["catch-handler-paths"] = nrep
     report["GenEigsComplexShiftSolver::sort_ritzpair"] = R.fired
     report.setdefault("abstracted_statements", {})["GenEigsComplexShiftSolver::sort_ritzpair"] = stm
     return t, spec
